@@ -197,6 +197,112 @@ def _snapshot(objs):
     return snap
 
 
+def object_history_stream(ctx):
+    """call histories on ONE RestrictedLinearSystem object: complete / extend / restrict / restrict_rhs /
+    restrict_matrix are called 4-8 times with different vectors while every earlier result is retained by the
+    caller; after the last call every retained result is (a) compared with the Lean model's answer for its own
+    call (exact diff through drv_c10), (b) compared bitwise with the copy taken when it was returned, and (c)
+    checked against the definition (model-free); all inputs and arguments are monitored bitwise.  Results handed
+    out belong to the caller: a later call must not change them."""
+    from pyiga import assemble
+    rng = ctx.rng
+    ncase = 400 if ctx.tier == 'quick' else 5000
+    req, impl, meta = [], [], []
+    for t in range(ncase):
+        n = int(rng.integers(2, 8))
+        k = int(rng.integers(1, n))
+        idx0 = [int(i) for i in rng.permutation(n)[:k]]
+        scalar_vals = rng.integers(0, 5) == 0
+        vals0 = float(rng.integers(-6, 7)) if scalar_vals else [float(v) for v in rng.integers(-7, 8, size=k)]
+        er0 = [int(i) for i in rng.permutation(n)[:k]] if rng.integers(0, 4) == 0 else None
+        case = RlsCase(n, n, rand_matrix(rng, n, n, dominant=True), [float(v) for v in rng.integers(-6, 7, size=n)], idx0, vals0, er0,
+                       [None, 'csr', 'csc'][int(rng.integers(0, 3))], 'ndarray', 'ndarray')
+        free = [j for j in range(n) if j not in set(idx0)]
+        freev = [r for r in range(n) if r not in set(idx0 if er0 is None else er0)]
+        vals_list = [vals0] * k if scalar_vals else vals0
+        nops = int(rng.integers(4, 9))
+        ops = [['complete', 'complete', 'extend', 'restrict', 'rrhs', 'rmat'][int(rng.integers(0, 6))] for _ in range(nops)]
+        if rng.integers(0, 2) == 0:
+            ops[0] = ops[-1] = 'complete'
+        ctx.case(('object-history', n, tuple(idx0), tuple(ops)), nontrivial=True)
+        ctx.count('object histories'); ctx.count('object-history calls', nops)
+        replay = dict(case.describe(), ops=ops, vectors=[])
+        found = None
+        kept = []       # (op, argument, returned object, bytes at return time)
+        try:
+            A, b, idx, vals, er = case.args()
+            inputs = {'A': A, 'b': b, 'indices': idx, 'values': vals, 'elim_rows': er}
+            snaps = _snapshot(inputs)
+            ctx.mark('object-history ' + repr(replay)[:400]) if hasattr(ctx, 'mark') else None
+            S = assemble.RestrictedLinearSystem(A, b, (idx, vals), elim_rows=er)
+            for j, op in enumerate(ops):
+                dt = float if rng.integers(0, 5) else np.int64
+                u = rng.integers(-5, 6, size=n).astype(dt)
+                uf = rng.integers(-5, 6, size=len(free)).astype(dt)
+                f = rng.integers(-5, 6, size=n).astype(dt)
+                B = rng.integers(-4, 5, size=(n, n)).astype(float)
+                newin = {'u%d' % j: u, 'uf%d' % j: uf, 'f%d' % j: f, 'B%d' % j: B}
+                inputs.update(newin); snaps.update(_snapshot(newin))
+                replay['vectors'].append({'op': op, 'u': u.tolist(), 'u_f': uf.tolist(), 'f': f.tolist(), 'B': B.tolist()})
+                r = {'complete': lambda: S.complete(uf), 'extend': lambda: S.extend(uf), 'restrict': lambda: S.restrict(u),
+                     'rrhs': lambda: S.restrict_rhs(f), 'rmat': lambda: S.restrict_matrix(B)}[op]()
+                dense_now = (r.toarray() if scipy.sparse.issparse(r) else np.array(r, copy=True))
+                kept.append((op, (u, uf, f, B), r, dense_now))
+                req.append(case.request(u.astype(float), uf.astype(float), f.astype(float), B))
+            after = _snapshot(inputs)
+            changed = [nm for nm in snaps if snaps[nm] != after[nm]]
+            if changed:
+                found = 'input / argument %s modified in place during the call history' % ', '.join(changed)
+        except Exception as ex:
+            found = 'implementation raised %s on a valid call history: %s' % (type(ex).__name__, str(ex)[:120])
+        # after the whole history: look at every retained result again
+        answers = []
+        for j, (op, (u, uf, f, B), r, at_return) in enumerate(kept):
+            now = r.toarray() if scipy.sparse.issparse(r) else np.asarray(r)
+            answers.append((op, (fmat if op == 'rmat' else fvec)(now)))
+            if now.shape != at_return.shape or not np.array_equal(now, at_return):
+                found = found or ('the vector returned by call %d (%s) was changed by a later call on the same object: it was %s when returned, '
+                                  'it is %s after call %d' % (j, op, at_return.tolist(), now.tolist(), len(kept) - 1))
+            want = None
+            if op == 'complete':
+                want = np.zeros(n); want[free] = uf
+                for i, v in zip(idx0, vals_list):
+                    want[i] = v
+            elif op == 'extend':
+                want = np.zeros(n); want[free] = uf
+            elif op == 'restrict':
+                want = np.asarray(u, dtype=float)[free]
+            elif op == 'rrhs':
+                want = np.asarray(f, dtype=float)[freev]
+            elif op == 'rmat':
+                want = B[np.ix_(freev, free)] if free and freev else np.zeros((len(freev), len(free)))
+            if want is not None and (np.shape(now) != np.shape(want) or not np.array_equal(np.asarray(now, dtype=float), want)):
+                found = found or 'retained result of call %d (%s) is %s, by definition it is %s' % (j, op, np.asarray(now).tolist(), np.asarray(want).tolist())
+        while len(answers) < len(ops) and found is not None:
+            answers.append((ops[len(answers)], 'err'))
+            req.append(case.request(np.zeros(n), np.zeros(len(free)), np.zeros(n), np.zeros((n, n))))
+        impl.extend(answers)
+        meta.extend([(replay, found if j == 0 else None, j) for j in range(len(answers))])
+    got = ctx.model('drv_c10', req)
+    nbad = 0
+    nrep = 0
+    for r_, (op, e), g, (replay, found, j) in zip(req, impl, got, meta):
+        fields = dict((x.split(' ', 1) + [''])[:2] for x in g.split(' | '))
+        gm = fields.get(op)
+        dis = (gm != e)
+        if dis or found is not None:
+            nbad += 1
+            if nrep < 2:
+                nrep += 1
+                ctx.violation('bc-object-history', (found or 'retained result of call %d (%s) differs from the model: %s vs model %s' % (j, op, e[:200], str(gm)[:200])),
+                              dict(replay, request=r_[:2000], oracle=found, call='S = RestrictedLinearSystem(A, b, (indices, values), elim_rows); '
+                                   'r_j = S.<op_j>(vector_j) for every entry of `vectors`, all r_j retained; afterwards every r_j must still be its own result'),
+                              found is not None or dis)
+    ctx.obligation('object-history stream: %d calls in %d histories on one object; every retained result == model and unchanged by later calls' % (len(req), ncase),
+                   nbad == 0, '%d failing calls/histories' % nbad)
+    ctx.extra['requests'] = ctx.extra.get('requests', 0) + len(req)
+
+
 def shared_input_stream(ctx):
     """(1) monitor: every input of RestrictedLinearSystem (A data/indices, b, indices, values, elim_rows) and
     every vector passed to restrict/extend/restrict_rhs/restrict_matrix/complete is bitwise unchanged afterwards;
@@ -1006,6 +1112,7 @@ def run(ctx):
     ctx.extra['requests'] = len(req)
 
     shared_input_stream(ctx)
+    object_history_stream(ctx)
 
     # ------------------------------------------------------------ direct oracle runs (model-free)
     nor = 800 if ctx.tier == 'quick' else 3000
